@@ -78,7 +78,12 @@ def gen_cases(rng, tier):
             if down and rng.random() < 0.6:
                 h.append('u%d' % down.pop())
             else:
+                # (the on-idle key itself may be tapped again while its entry is waiting: that only restarts the idle time)
                 k = rng.choice([k for k in (31, 32) if k not in down] or [31])
+                if rng.random() < 0.35:
+                    h += ['d30', 't1', 'u30']; now += 1
+                    last = now
+                    continue
                 if k in down:
                     down.remove(k); h.append('u%d' % k)
                 else:
